@@ -1,11 +1,32 @@
 package main
 
-// Frame / effect obligations discharged by provenance analysis over SSA (see effects_impl.go).
+// Frame / effect obligations discharged by provenance analysis over SSA (back end "frame").
+// C11: deterministic effect (no map-iteration order, clock, randomness, scheduling or global mutable state
+//      can influence the functions on the compile path);
+// C10: solve/prove/verify write only memory they allocate or own (nothing reachable from the shared
+//      compiled system, the keys or the caller's option values).
+
+import (
+	"fmt"
+	"os"
+	"regexp"
+
+	"go/token"
+	"go/types"
+	"golang.org/x/tools/go/callgraph"
+	"golang.org/x/tools/go/callgraph/cha"
+	"sort"
+	"strings"
+
+	"golang.org/x/tools/go/ssa"
+)
 
 type EffectCfg struct {
-	Deterministic []string `json:"deterministic,omitempty"` // package patterns whose functions must be deterministic (C11)
-	Roots         []string `json:"roots,omitempty"`
-	Frames        []string `json:"frames,omitempty"`
+	Mode         string              `json:"mode"`                    // "deterministic" | "frame"
+	Roots        []string            `json:"roots,omitempty"`         // function names (ssa String()) the analysis starts from; empty = all functions of the packages
+	Exclude      []string            `json:"exclude,omitempty"`       // function name substrings not followed / not analysed (with reason in Allowed)
+	Allowed      map[string]string   `json:"allowed,omitempty"`       // site or global name -> reason (trusted, listed as assumption)
+	SharedParams map[string][]string `json:"shared_params,omitempty"` // frame mode: function -> parameter names that are shared objects
 }
 
 type EffectObl struct {
@@ -14,4 +35,624 @@ type EffectObl struct {
 	Assumes                       []string
 }
 
-func runEffects(eng *Engine, cfg *EffectCfg, prop string) []*EffectObl { return nil }
+func runEffects(eng *Engine, cfg *EffectCfg, prop string) []*EffectObl {
+	switch cfg.Mode {
+	case "deterministic":
+		return runDeterminism(eng, cfg)
+	case "frame":
+		return runFrames(eng, cfg)
+	}
+	return nil
+}
+
+// allFunctions of the loaded (source) packages, including methods and closures
+func (eng *Engine) allFunctions() []*ssa.Function {
+	seen := map[*ssa.Function]bool{}
+	var out []*ssa.Function
+	var add func(f *ssa.Function)
+	add = func(f *ssa.Function) {
+		if f == nil || seen[f] || len(f.Blocks) == 0 {
+			return
+		}
+		seen[f] = true
+		out = append(out, f)
+		for _, a := range f.AnonFuncs {
+			add(a)
+		}
+	}
+	for _, sp := range eng.spkgs {
+		if sp == nil {
+			continue
+		}
+		for _, m := range sp.Members {
+			switch x := m.(type) {
+			case *ssa.Function:
+				add(x)
+			case *ssa.Type:
+				if named, ok := x.Type().(*types.Named); ok {
+					for i := 0; i < named.NumMethods(); i++ {
+						add(eng.prog.FuncValue(named.Method(i)))
+					}
+				}
+			}
+		}
+	}
+	sort.Slice(out, func(i, j int) bool { return out[i].String() < out[j].String() })
+	return out
+}
+
+func (eng *Engine) relPos(p token.Pos) string {
+	ps := eng.prog.Fset.Position(p)
+	if !ps.IsValid() {
+		return ""
+	}
+	return eng.sourceLine(ps)
+}
+
+func funcShort(f *ssa.Function) string { return shortName(normKey(f.String())) }
+
+// ---------------------------------------------------------------------------
+// C11: deterministic effect
+
+var nondetCalls = map[string]string{
+	"time.Now": "wall clock", "time.Since": "wall clock", "math/rand.": "pseudo-randomness", "crypto/rand.": "randomness",
+	"os.Getenv": "environment", "os.Getpid": "process id", "runtime.NumGoroutine": "scheduler state", "runtime.NumCPU": "machine", "runtime.GOMAXPROCS": "machine",
+}
+
+func runDeterminism(eng *Engine, cfg *EffectCfg) []*EffectObl {
+	var out []*EffectObl
+	allowed := func(key string) (string, bool) {
+		for k, why := range cfg.Allowed {
+			if strings.Contains(key, k) {
+				return why, true
+			}
+		}
+		return "", false
+	}
+	excluded := func(name string) bool {
+		for _, e := range cfg.Exclude {
+			if strings.Contains(name, e) {
+				return true
+			}
+		}
+		return false
+	}
+	fns := eng.allFunctions()
+	if len(cfg.Roots) > 0 {
+		fns = eng.reachableFrom(cfg.Roots, cfg.Exclude)
+	}
+	for _, fn := range fns {
+		name := funcShort(fn)
+		if excluded(fn.String()) {
+			continue
+		}
+		counters := map[string]int{}
+		mk := func(kind, text, detail string, pos token.Pos, ok bool) {
+			n := counters[kind]
+			counters[kind] = n + 1
+			o := &EffectObl{Name: fmt.Sprintf("%s#%s%d", name, kind, n), Kind: kind, Text: text, Pos: eng.relPos(pos), Detail: detail, OK: ok}
+			if why, isAllowed := allowed(o.Name); isAllowed && !ok {
+				o.OK = true
+				o.Assumes = []string{"allowed effect " + o.Name + ": " + why}
+			} else if why, isAllowed := allowed(detail); isAllowed && !ok && detail != "" {
+				o.OK = true
+				o.Assumes = []string{"allowed effect (" + detail + "): " + why}
+			}
+			out = append(out, o)
+		}
+		// the function-level obligation: present even when the body has no suspicious site
+		sites := 0
+		for _, b := range fn.Blocks {
+			for _, in := range b.Instrs {
+				switch x := in.(type) {
+				case *ssa.Range:
+					if _, isMap := x.X.Type().Underlying().(*types.Map); isMap {
+						sites++
+						ok, why := mapRangeOrderIndependent(fn, x)
+						mk("maprange", "iteration over a map must not influence the result (order is randomised per run): "+eng.relPos(x.Pos()), why, x.Pos(), ok)
+					}
+				case *ssa.Select:
+					if !x.Blocking || len(x.States) > 1 {
+						sites++
+						mk("select", "select over several channels is scheduling dependent: "+eng.relPos(x.Pos()), "", x.Pos(), false)
+					}
+				case *ssa.Go:
+					sites++
+					mk("go", "goroutine started on the compile path: "+eng.relPos(x.Pos()), "", x.Pos(), false)
+				case *ssa.Store:
+					if g := globalRoot(x.Addr); g != nil && fn.Name() != "init" && !strings.HasPrefix(fn.Name(), "init#") && !isOnceInitialiser(fn) {
+						sites++
+						mk("globalwrite", "write to package-level variable "+g.String()+" (state shared between compilations): "+eng.relPos(x.Pos()), g.String(), x.Pos(), false)
+					}
+				case *ssa.MapUpdate:
+					if g := globalRoot(x.Map); g != nil && fn.Name() != "init" && !strings.HasPrefix(fn.Name(), "init#") {
+						sites++
+						mk("globalwrite", "update of package-level map "+g.String()+": "+eng.relPos(x.Pos()), g.String(), x.Pos(), false)
+					}
+				case ssa.CallInstruction:
+					c := x.Common()
+					callee := ""
+					if f := c.StaticCallee(); f != nil {
+						callee = f.String()
+						if f.Pkg != nil {
+							callee = f.Pkg.Pkg.Path() + "." + f.Name()
+						} else if f.Object() != nil && f.Object().Pkg() != nil {
+							callee = f.Object().Pkg().Path() + "." + f.Name()
+						}
+					}
+					for pat, what := range nondetCalls {
+						if callee != "" && (callee == pat || (strings.HasSuffix(pat, ".") && strings.HasPrefix(callee, pat))) {
+							sites++
+							mk("nondet-call", "call of "+callee+" ("+what+"): "+eng.relPos(in.Pos()), callee, in.Pos(), false)
+						}
+					}
+					// mutation of an object owned by a package-level variable through a call: the receiver of a
+					// (non read-only) method, or the destination of append/copy
+					if fn.Name() != "init" && !strings.HasPrefix(fn.Name(), "init#") {
+						var recv ssa.Value
+						if c.IsInvoke() {
+							recv = c.Value
+						} else if f := c.StaticCallee(); f != nil && f.Signature.Recv() != nil && len(c.Args) > 0 {
+							recv = c.Args[0]
+						} else if b, ok := c.Value.(*ssa.Builtin); ok && (b.Name() == "append" || b.Name() == "copy") && len(c.Args) > 0 {
+							recv = c.Args[0]
+						}
+						if recv != nil {
+							if g := globalRoot(recv); g != nil && isRefLike(recv.Type()) && !callIsReadOnly(eng, c) && !isOnceDo(c) {
+								sites++
+								mk("globalwrite", "object owned by package-level variable "+g.String()+" is the receiver/destination of a possibly mutating call ("+calleeName(c)+"): "+eng.relPos(in.Pos()), g.String(), in.Pos(), false)
+							}
+						}
+					}
+				}
+			}
+		}
+		if sites == 0 {
+			out = append(out, &EffectObl{Name: name + "#deterministic", Kind: "deterministic", OK: true,
+				Text: "no map iteration, select, goroutine, clock/randomness call or write to package-level state in the body"})
+		}
+	}
+	return out
+}
+
+func calleeName(c *ssa.CallCommon) string {
+	if c.IsInvoke() {
+		return c.Method.FullName()
+	}
+	if f := c.StaticCallee(); f != nil {
+		return f.String()
+	}
+	return "dynamic call"
+}
+
+func isRefLike(t types.Type) bool {
+	switch types.Unalias(t).Underlying().(type) {
+	case *types.Pointer, *types.Slice, *types.Map, *types.Interface, *types.Chan:
+		return true
+	}
+	return false
+}
+
+// globalRoot: the package-level variable a value is (transitively) loaded from / points into
+func globalRoot(v ssa.Value) *ssa.Global {
+	for i := 0; i < 12; i++ {
+		switch x := v.(type) {
+		case *ssa.Global:
+			return x
+		case *ssa.FieldAddr:
+			v = x.X
+		case *ssa.IndexAddr:
+			v = x.X
+		case *ssa.Slice:
+			v = x.X
+		case *ssa.UnOp:
+			if x.Op != token.MUL {
+				return nil
+			}
+			v = x.X
+		case *ssa.ChangeType:
+			v = x.X
+		case *ssa.ChangeInterface:
+			v = x.X
+		case *ssa.MakeInterface:
+			v = x.X
+		case *ssa.Field:
+			v = x.X
+		default:
+			return nil
+		}
+	}
+	return nil
+}
+
+// callIsReadOnly: callee known not to modify its reference arguments
+func callIsReadOnly(eng *Engine, c *ssa.CallCommon) bool {
+	if b, ok := c.Value.(*ssa.Builtin); ok {
+		switch b.Name() {
+		case "len", "cap", "print", "println", "min", "max":
+			return true
+		}
+		return false
+	}
+	name := calleeName(c)
+	if con := eng.cs.lookup(name); con != nil && (con.Pure || (con.HasAssigns && len(con.Assigns) == 0)) {
+		return true
+	}
+	if f := c.StaticCallee(); f != nil {
+		p := calleePkgPath(f)
+		if isEffectFree(p) {
+			return true
+		}
+		// big.Int / field element readers
+		switch f.Name() {
+		case "Cmp", "Sign", "BitLen", "IsUint64", "Uint64", "Int64", "String", "Text", "Bytes", "Equal", "IsZero", "IsOne", "Bit", "Marshal", "Len", "Error", "Type", "Kind", "Name":
+			return true
+		}
+	}
+	if c.IsInvoke() {
+		switch c.Method.Name() {
+		case "String", "Error", "Len", "Size", "BlockSize":
+			return true
+		}
+	}
+	return false
+}
+
+// mapRangeOrderIndependent: a syntactic sufficient condition. The loop body may only
+//   - update / delete entries of maps, keyed by the iteration key or not,
+//   - store into cells indexed by the iteration key,
+//   - compute pure values, compare, and `continue`;
+//
+// any append, call with side effects, early exit (return/break carrying a value that depends on
+// the iteration) or store to a fixed location makes the result depend on the order.
+func mapRangeOrderIndependent(fn *ssa.Function, r *ssa.Range) (bool, string) {
+	// locate the loop: the block containing the Next instruction of this range is the header
+	var header *ssa.BasicBlock
+	for _, ref := range *r.Referrers() {
+		if n, ok := ref.(*ssa.Next); ok {
+			header = n.Block()
+		}
+	}
+	if header == nil {
+		return false, "loop not found"
+	}
+	body := map[*ssa.BasicBlock]bool{header: true}
+	var stack []*ssa.BasicBlock
+	for _, p := range header.Preds {
+		if header.Dominates(p) && !body[p] {
+			body[p] = true
+			stack = append(stack, p)
+		}
+	}
+	for len(stack) > 0 {
+		b := stack[len(stack)-1]
+		stack = stack[:len(stack)-1]
+		for _, p := range b.Preds {
+			if !body[p] {
+				body[p] = true
+				stack = append(stack, p)
+			}
+		}
+	}
+	for b := range body {
+		for _, s := range b.Succs {
+			if !body[s] && b != header {
+				return false, "early exit from the loop (the first key found decides)"
+			}
+		}
+		for _, in := range b.Instrs {
+			switch x := in.(type) {
+			case *ssa.Store:
+				root := x.Addr
+				for {
+					if ia, ok := root.(*ssa.IndexAddr); ok {
+						root = ia.X
+						continue
+					}
+					if fa, ok := root.(*ssa.FieldAddr); ok {
+						root = fa.X
+						continue
+					}
+					break
+				}
+				if a, isAlloc := root.(*ssa.Alloc); !isAlloc || !body[a.Block()] && a.Comment != "varargs" {
+					return false, "store to a location that outlives the iteration"
+				}
+			case *ssa.Send, *ssa.Go, *ssa.Defer, *ssa.Panic:
+				return false, "channel/goroutine/defer/panic inside the loop"
+			case *ssa.Return:
+				return false, "return inside the loop"
+			case ssa.CallInstruction:
+				c := x.Common()
+				if bi, ok := c.Value.(*ssa.Builtin); ok {
+					switch bi.Name() {
+					case "len", "cap", "delete", "min", "max":
+						continue
+					}
+					if bi.Name() == "append" && appendThenSorted(x, header, body) {
+						continue
+					}
+					return false, "builtin " + bi.Name() + " inside the loop (appending makes the order observable)"
+				}
+				if f := c.StaticCallee(); f != nil && isEffectFree(calleePkgPath(f)) {
+					continue
+				}
+				return false, "call of " + calleeName(c) + " inside the loop"
+			case *ssa.Phi:
+				// a loop-carried value (accumulator) must be combined commutatively (+, *, |, &, ^, max, min)
+				if x.Block() == header {
+					for k, p := range header.Preds {
+						if !body[p] {
+							continue
+						}
+						if isSortedAccumulator(x, header, body) {
+							continue
+						}
+						if !commutativeUpdate(x, x.Edges[k], 0) {
+							return false, "loop-carried value " + x.Comment + " is not a commutative accumulation (its final value depends on the iteration order)"
+						}
+					}
+				}
+			}
+		}
+	}
+	return true, "body only updates maps / numeric accumulators"
+}
+
+// ---------------------------------------------------------------------------
+// C10: frames (see frames.go)
+
+func commutativeUpdate(phi *ssa.Phi, v ssa.Value, depth int) bool {
+	if v == ssa.Value(phi) {
+		return true
+	}
+	if depth > 4 {
+		return false
+	}
+	switch x := v.(type) {
+	case *ssa.BinOp:
+		switch x.Op {
+		case token.ADD, token.MUL, token.OR, token.AND, token.XOR:
+			return (x.X == ssa.Value(phi) && !dependsOn(x.Y, phi, 0)) || (x.Y == ssa.Value(phi) && !dependsOn(x.X, phi, 0))
+		}
+	case *ssa.Call:
+		if b, ok := x.Common().Value.(*ssa.Builtin); ok && (b.Name() == "max" || b.Name() == "min") {
+			n := 0
+			for _, a := range x.Common().Args {
+				if a == ssa.Value(phi) {
+					n++
+				} else if dependsOn(a, phi, 0) {
+					return false
+				}
+			}
+			return n == 1
+		}
+	case *ssa.Phi:
+		// join of conditional updates inside the body
+		for _, e := range x.Edges {
+			if !commutativeUpdate(phi, e, depth+1) {
+				return false
+			}
+		}
+		return true
+	}
+	return false
+}
+
+func dependsOn(v ssa.Value, phi *ssa.Phi, depth int) bool {
+	if v == ssa.Value(phi) {
+		return true
+	}
+	if depth > 6 {
+		return true
+	}
+	if in, ok := v.(ssa.Instruction); ok {
+		for _, op := range in.Operands(nil) {
+			if *op != nil && dependsOn(*op, phi, depth+1) {
+				return true
+			}
+		}
+	}
+	return false
+}
+
+// reachableFrom: functions with bodies reachable in the CHA call graph from the root patterns
+// (regular expressions on ssa function names), not following excluded functions.
+func (eng *Engine) reachableFrom(roots, exclude []string) []*ssa.Function {
+	cg := cha.CallGraph(eng.prog)
+	var res []*regexp.Regexp
+	for _, r := range roots {
+		res = append(res, regexp.MustCompile(r))
+	}
+	isExcluded := func(name string) bool {
+		for _, e := range exclude {
+			if strings.Contains(name, e) {
+				return true
+			}
+		}
+		return false
+	}
+	seen := map[*ssa.Function]bool{}
+	var work []*ssa.Function
+	for _, f := range eng.allFunctions() {
+		n := f.String()
+		for _, re := range res {
+			if re.MatchString(n) && !isExcluded(n) {
+				if !seen[f] {
+					seen[f] = true
+					work = append(work, f)
+				}
+			}
+		}
+	}
+	// methods by name, for interface calls (class-hierarchy approximation over the loaded packages)
+	byName := map[string][]*ssa.Function{}
+	for _, f := range eng.allFunctions() {
+		if f.Signature.Recv() != nil {
+			byName[f.Name()] = append(byName[f.Name()], f)
+		}
+	}
+	for len(work) > 0 {
+		f := work[len(work)-1]
+		work = work[:len(work)-1]
+		visit := func(g *ssa.Function) {
+			if g != nil && g.Origin() != nil && g.Origin() != g {
+				g = g.Origin() // instantiation of a generic function: its body is the generic one
+			}
+			if g == nil || seen[g] || isExcluded(g.String()) {
+				return
+			}
+			seen[g] = true
+			work = append(work, g)
+		}
+		if node := cg.Nodes[f]; node != nil {
+			for _, e := range node.Out {
+				visit(e.Callee.Func)
+			}
+		}
+		for _, b := range f.Blocks {
+			for _, in := range b.Instrs {
+				switch x := in.(type) {
+				case ssa.CallInstruction:
+					c := x.Common()
+					if c.IsInvoke() {
+						for _, m := range byName[c.Method.Name()] {
+							visit(m)
+						}
+					} else if g := c.StaticCallee(); g != nil {
+						visit(g)
+					}
+				case *ssa.MakeClosure:
+					if g, ok := x.Fn.(*ssa.Function); ok {
+						visit(g)
+					}
+				}
+			}
+		}
+		for _, a := range f.AnonFuncs {
+			visit(a)
+		}
+	}
+	_ = callgraph.CalleesOf
+	var out []*ssa.Function
+	for f := range seen {
+		if os.Getenv("GOVC_DEBUG") != "" {
+			fmt.Fprintln(os.Stderr, "reachable:", f.String(), len(f.Blocks))
+		}
+		if len(f.Blocks) > 0 {
+			out = append(out, f)
+		}
+	}
+	sort.Slice(out, func(i, j int) bool { return out[i].String() < out[j].String() })
+	return out
+}
+
+func isOnceDo(c *ssa.CallCommon) bool {
+	if f := c.StaticCallee(); f != nil {
+		return f.String() == "(*sync.Once).Do"
+	}
+	return false
+}
+
+// isOnceInitialiser: fn is a closure passed to (*sync.Once).Do by its parent: one-time initialisation of
+// package-level constants (deterministic as long as the initialiser itself is; it is analysed too)
+func isOnceInitialiser(fn *ssa.Function) bool {
+	p := fn.Parent()
+	if p == nil {
+		return false
+	}
+	for _, b := range p.Blocks {
+		for _, in := range b.Instrs {
+			if ci, ok := in.(ssa.CallInstruction); ok && isOnceDo(ci.Common()) {
+				for _, a := range ci.Common().Args {
+					if mc, ok := a.(*ssa.MakeClosure); ok && mc.Fn == ssa.Value(fn) {
+						return true
+					}
+					if a == ssa.Value(fn) {
+						return true
+					}
+				}
+			}
+		}
+	}
+	return false
+}
+
+var sortFuncs = map[string]bool{"sort.Ints": true, "sort.Strings": true, "sort.Slice": true, "sort.SliceStable": true, "sort.Sort": true, "sort.Stable": true,
+	"slices.Sort": true, "slices.SortFunc": true, "slices.SortStableFunc": true}
+
+// isSortedAccumulator: the loop-carried slice phi is only appended to inside the loop and the first thing
+// done with it after the loop is sorting it (the "collect the keys, then sort" idiom)
+func isSortedAccumulator(phi *ssa.Phi, header *ssa.BasicBlock, body map[*ssa.BasicBlock]bool) bool {
+	if _, ok := phi.Type().Underlying().(*types.Slice); !ok {
+		return false
+	}
+	type use struct {
+		b, i int
+		in   ssa.Instruction
+	}
+	var outside []use
+	for _, ref := range *phi.Referrers() {
+		if body[ref.Block()] {
+			// inside: only `append(phi, ...)` feeding back into the phi
+			call, ok := ref.(*ssa.Call)
+			if ok {
+				if bi, ok := call.Common().Value.(*ssa.Builtin); ok && bi.Name() == "append" && call.Common().Args[0] == ssa.Value(phi) {
+					continue
+				}
+			}
+			if _, ok := ref.(*ssa.DebugRef); ok {
+				continue
+			}
+			if p2, ok := ref.(*ssa.Phi); ok && p2 == phi {
+				continue
+			}
+			return false
+		}
+		idx := 0
+		for k, in := range ref.Block().Instrs {
+			if in == ref {
+				idx = k
+			}
+		}
+		outside = append(outside, use{ref.Block().Index, idx, ref})
+	}
+	if len(outside) == 0 {
+		return false
+	}
+	sort.Slice(outside, func(i, j int) bool {
+		if outside[i].b != outside[j].b {
+			return outside[i].b < outside[j].b
+		}
+		return outside[i].i < outside[j].i
+	})
+	for _, u := range outside {
+		if _, ok := u.in.(*ssa.DebugRef); ok {
+			continue
+		}
+		ci, ok := u.in.(ssa.CallInstruction)
+		if !ok {
+			// a conversion to a sortable named type etc.: follow one step
+			if mi, ok := u.in.(*ssa.ChangeType); ok {
+				for _, r2 := range *mi.Referrers() {
+					if c2, ok := r2.(ssa.CallInstruction); ok && c2.Common().StaticCallee() != nil && sortFuncs[c2.Common().StaticCallee().String()] {
+						return true
+					}
+				}
+			}
+			return false
+		}
+		f := ci.Common().StaticCallee()
+		return f != nil && sortFuncs[f.String()]
+	}
+	return false
+}
+
+func appendThenSorted(call ssa.Instruction, header *ssa.BasicBlock, body map[*ssa.BasicBlock]bool) bool {
+	c := call.(ssa.CallInstruction).Common()
+	phi, ok := c.Args[0].(*ssa.Phi)
+	if !ok || phi.Block() != header {
+		return false
+	}
+	return isSortedAccumulator(phi, header, body)
+}
